@@ -231,3 +231,33 @@ func harnessC08Families() {
 		verif_assert(got.OriginAgent == c08ID(1), "C08/result-contains-address")
 	}
 }
+
+// C08 for IPv6: two nested IPv6 networks of different prefix lengths (every pair from
+// 16, 32, 48, 64, 128 bits -- 32 and 128 are also the lengths of IPv4 host routes and of
+// IPv6 host routes), stored in either order (map iteration follows insertion order in
+// the model): the destination inside both resolves to the longer prefix
+func harnessC08V6LongestPrefix() {
+	lens := []int{16, 32, 48, 64, 128}
+	i := verif_choose(len(lens) - 1)
+	j := i + 1 + verif_choose(len(lens)-1-i)
+	l1, l2 := lens[i], lens[j]
+	base := net.IP{0x20, 0x01, 0x0d, 0xb8, 0, 1, 0, 2, 0, 0, 0, 0, 0, 0, 0, 0x42}
+	n1 := &net.IPNet{IP: base.Mask(net.CIDRMask(l1, 128)), Mask: net.CIDRMask(l1, 128)}
+	n2 := &net.IPNet{IP: base.Mask(net.CIDRMask(l2, 128)), Mask: net.CIDRMask(l2, 128)}
+	r1 := &Route{Network: n1, NextHop: c08ID(0), OriginAgent: c08ID(0), Metric: 1, Sequence: 1, Path: []identity.AgentID{c08ID(0)}}
+	r2 := &Route{Network: n2, NextHop: c08ID(1), OriginAgent: c08ID(1), Metric: 5, Sequence: 1, Path: []identity.AgentID{c08ID(1)}}
+	t := NewTable(c08ID(3))
+	if verif_nondet_bool() {
+		t.AddRoute(r1)
+		t.AddRoute(r2)
+	} else {
+		t.AddRoute(r2)
+		t.AddRoute(r1)
+	}
+	got := t.Lookup(base)
+	verif_reach("C08/v6-longest-prefix")
+	verif_assert(got != nil, "C08/nothing-iff-no-route-contains")
+	if got != nil {
+		verif_assert(got.OriginAgent == c08ID(1), "C08/v6-longest-prefix-wins")
+	}
+}
